@@ -165,6 +165,9 @@ func genCase(r *vh.Rand, paused bool) string {
 				hs = append(hs, h)
 			}
 		}
+		if format == "raw" && len(body) > 0 && r.Chance(1, 3) {
+			scheme += "c" // the raw entry carries its body with Transfer-Encoding: chunked
+		}
 		e := fmt.Sprintf("E %s %s %s %s %s %s %d", vh.HexS(method), vh.HexS(uri), scheme, vh.HexS(host), vh.HexS(tag), vh.Hex(body), len(hs))
 		for _, h := range hs {
 			e += " " + encKV(h)
@@ -196,7 +199,15 @@ func genCase(r *vh.Rand, paused bool) string {
 	if rdv && inst >= 3 && r.Chance(1, 2) {
 		passes *= 3 // several rounds of all instances shooting in step
 	}
-	resp := fmt.Sprintf("%d:%d:%d:%s", r.PickInt([]int{200, 200, 200, 204, 301, 404, 500}), r.PickInt([]int{0, 2, 2, 1000, 70000, 300000, 1200000}), delay, vh.B(rdv))
+	// gun options under which Shoot reads the request body / the answer, or follows redirects (opts.go)
+	opts := genOptTokens(r, true)
+	status, size := r.PickInt([]int{200, 200, 200, 204, 301, 404, 500}), r.PickInt([]int{0, 2, 2, 1000, 70000, 300000, 1200000})
+	if status == 301 && size > 2048 && strings.Contains("."+opts+".", ".r.") {
+		// net/http's redirect-following client reads at most 2 KB of a redirect answer and closes the connection otherwise
+		// (http.Client, maxBodySlurpSize): not the gun's doing, so such answers stay small when redirects are followed
+		size = 1000
+	}
+	resp := fmt.Sprintf("%d:%d:%d:%s", status, size, delay, vh.B(rdv))
 	// the gun's shared-client block: absent (the default), present but disabled (per-instance clients, whatever client-number
 	// says: 0, the documented default 1, more than / fewer than the instances, negative), or enabled
 	sc := "n"
@@ -212,7 +223,16 @@ func genCase(r *vh.Rand, paused bool) string {
 	if paused {
 		pause = r.PickInt([]int{1300, 1300, 1600})
 	}
-	line := fmt.Sprintf("wire %s %s %s %d:%s %s %s %s %d %s %d %d %d", format, vh.B(ssl), vh.B(ka), inst, sc, tgt, vh.B(r.Chance(1, 3)), resp, pools, vh.B(late), pause, passes, len(cfg))
+	kaf := vh.B(ka)
+	if opts != "" {
+		kaf += ":" + opts
+	}
+	// the file is delivered `passes` times either through `limit` = entries * passes or through the provider option `passes`
+	pf := fmt.Sprint(passes)
+	if r.Chance(1, 4) {
+		pf += "p"
+	}
+	line := fmt.Sprintf("wire %s %s %s %d:%s %s %s %s %d %s %d %s %d", format, vh.B(ssl), kaf, inst, sc, tgt, vh.B(r.Chance(1, 3)), resp, pools, vh.B(late), pause, pf, len(cfg))
 	if len(cfg) > 0 {
 		line += " " + strings.Join(cfg, " ")
 	}
